@@ -10,6 +10,8 @@ import (
 	"time"
 
 	"github.com/cnotch/ipchub/av/codec"
+	"github.com/cnotch/ipchub/av/codec/h264"
+	"github.com/cnotch/ipchub/av/codec/hevc"
 	"github.com/cnotch/ipchub/av/format/amf"
 	"github.com/cnotch/queue"
 	"github.com/cnotch/xlog"
@@ -125,10 +127,38 @@ func (muxer *Muxer) process() {
 	}
 }
 
+// parameterSetsReady reports whether the video parameter sets, from which the
+// metadata (width, height) and the decoder configuration are built, are known
+// and usable. It is the test the RTP depacketizers apply before they forward
+// video (h264.MetadataIsReady / hevc.MetadataIsReady), without modifying the
+// shared metadata.
+func (muxer *Muxer) parameterSetsReady() bool {
+	meta := muxer.videoMeta
+	if len(meta.Sps) == 0 || len(meta.Pps) == 0 {
+		return false
+	}
+	switch meta.Codec {
+	case "H264":
+		if meta.Width == 0 {
+			var sps h264.RawSPS
+			return sps.Decode(meta.Sps) == nil
+		}
+	case "H265":
+		if len(meta.Vps) == 0 {
+			return false
+		}
+		if meta.Width == 0 {
+			var sps hevc.H265RawSPS
+			return sps.Decode(meta.Sps) == nil
+		}
+	}
+	return true
+}
+
 // mux converts one frame. A panic raised while converting it (malformed
-// input, parameter sets not there yet) is logged and the frame dropped; the
-// conversion goroutine keeps serving the frames that follow, and the sequence
-// headers are tried again with the next frame.
+// input) is logged and the frame dropped; the conversion goroutine keeps
+// serving the frames that follow, and the sequence headers are tried again
+// with the next frame.
 func (muxer *Muxer) mux(frame *codec.Frame, packMetadata, packSequenceHeader *bool) {
 	defer func() {
 		if r := recover(); r != nil {
@@ -137,6 +167,13 @@ func (muxer *Muxer) mux(frame *codec.Frame, packMetadata, packSequenceHeader *bo
 	}()
 
 	if !*packSequenceHeader {
+		// With an SDP that carries no (or unusable) parameter sets they arrive
+		// in band. The depacketizer holds video back until then but forwards
+		// audio at once; such a frame is dropped here: nothing may precede the
+		// metadata and the sequence headers, and those cannot be built yet.
+		if !muxer.parameterSetsReady() {
+			return
+		}
 		if !*packMetadata {
 			muxer.muxMetadataTag()
 			*packMetadata = true
